@@ -109,6 +109,7 @@ class Tracer:
         elif event in ("IPreStart", "IPreprocessed", "Cu2QuI", "IFilter"):
             gss = f["glyphSets"]
             ev["gss"] = [self._gs(g) for g in gss]
+            ev["fontIds"] = [id(x) for x in (f.get("fonts") or [])]
             if event == "IFilter":
                 ev["name"] = filter_name(f["filter"])
                 ev["modified"] = sorted(f["modified"] or [])
